@@ -49,6 +49,7 @@ def g_ctor(draw, tier):
     c["shape_arg"] = draw(st.sampled_from(["tuple", "array", "none"]))
     c["copy_kw"] = draw(st.booleans())
     c["vals_dtype"] = draw(st.sampled_from(["float", "float", "int", "bool"]))
+    c["_present"] = R.d_present(draw, values=["vals"], indices=["subs", "shape"])
     return c
 
 
@@ -62,10 +63,11 @@ def _(ctx, c):
         vals = np.round(vals).astype(int)
     elif c["vals_dtype"] == "bool":
         vals = vals != 0
+    subs, vals = R.presented(ctx, c, "subs", subs), R.presented(ctx, c, "vals", vals)
     ops = {"subs": subs, "vals": vals}
     shape = tuple(c["shape"])
     if c["shape_arg"] == "array":
-        shape = np.array(c["shape"])
+        shape = R.presented(ctx, c, "shape", np.array(c["shape"]))
         ops["shape"] = shape
     elif c["shape_arg"] == "none" and len(c["subs"]):
         shape = None
@@ -680,7 +682,7 @@ def _(ctx, c):
     if c["vform"] == "scalar":
         v = c["value"]
     elif c["vform"] == "column":
-        v = np.array(c["value"], dtype=float).reshape(-1, 1)
+        v = R.CS.aux_present(c, np.array(c["value"], dtype=float).reshape(-1, 1))
     else:
         if c["value"] is None:
             return None
